@@ -154,6 +154,41 @@ pub fn sub_pair(rng: &mut Rng, max_hay: usize, max_needle: usize) -> (Vec<u8>, V
             n
         }
     };
+    // a haystack built out of the needle itself: copies, copies with one
+    // byte spoiled (near matches, back to back), prefixes, suffixes, filler
+    if needle.len() >= 2 && rng.chance(1, 4) {
+        let mut h: Vec<u8> = Vec::with_capacity(hlen + needle.len());
+        while h.len() < hlen {
+            match rng.below(8) {
+                0 | 1 => h.extend_from_slice(&needle),
+                2 | 3 | 4 => {
+                    let mut c = needle.clone();
+                    let i = match rng.below(3) {
+                        0 => rng.usize_below((c.len() / 2).max(1)),
+                        1 => c.len() - 1 - rng.usize_below((c.len() / 2).max(1)),
+                        _ => rng.usize_below(c.len()),
+                    };
+                    c[i] = if rng.chance(1, 2) { c[i].wrapping_add(1) } else { *rng.pick(&alpha) };
+                    h.extend_from_slice(&c);
+                }
+                5 => {
+                    let k = rng.range(1, needle.len());
+                    h.extend_from_slice(&needle[..k]);
+                }
+                6 => {
+                    let k = rng.range(1, needle.len());
+                    h.extend_from_slice(&needle[needle.len() - k..]);
+                }
+                _ => {
+                    let k = rng.range(1, 12);
+                    let filler = word(rng, k, &alpha);
+                    h.extend_from_slice(&filler);
+                }
+            }
+        }
+        h.truncate(hlen.max(needle.len().min(max_hay)));
+        return (needle, h);
+    }
     // plant copies / near misses
     if !needle.is_empty() && hay.len() >= needle.len() {
         let plants = match rng.below(6) {
